@@ -53,7 +53,35 @@ def symsDmgOp : List String → String
       symsDecText dmg (natOf n) (natOf comps2)
   | _ => "bad-op"
 
+/-- Samples the five hypotheses of `create_complete` (DracoProps.C08) on the binary64 oracle:
+    `T` total frequency, `pb` precision bits, `fs` frequencies ≤ T, `A` > 2^pb, `ps` ascending
+    table entries.  Answers `ok` or names the first hypothesis that fails. -/
+def ransOracleOp : List String → String
+  | [t, pb, fs, a, ps] =>
+    let T := natOf t
+    let P := 2 ^ natOf pb
+    let A := natOf a
+    let o := ProbOracle.float
+    let fl := natList fs
+    let pl := natList ps
+    if T = 0 ∨ A ≤ P then "bad-op"
+    else if o.est 0 T P ≠ 0 then "fail est_zero"
+    else if o.est T T P > P then "fail est_full"
+    else
+      match fl.find? (fun f => 0 < f ∧ f ≤ T ∧ T * o.est f T P > f * P + T) with
+      | some f => s!"fail est_le {f}"
+      | none =>
+        match pl.find? (fun p => o.rescale P A p > p) with
+        | some p => s!"fail rescale_le {p}"
+        | none =>
+          let rs := pl.map (o.rescale P A)
+          let sortedIn := (pl.zip (pl.drop 1)).all fun ab => ab.1 ≤ ab.2
+          let sortedOut := (rs.zip (rs.drop 1)).all fun ab => ab.1 ≤ ab.2
+          if sortedIn && !sortedOut then "fail rescale_mono" else "ok"
+  | _ => "bad-op"
+
 def symbolOps : List (String × (List String → String)) :=
-  [("syms_enc", symsEncOp), ("syms_dec", symsDecOp), ("syms_rt", symsRtOp), ("syms_dmg", symsDmgOp)]
+  [("syms_enc", symsEncOp), ("syms_dec", symsDecOp), ("syms_rt", symsRtOp), ("syms_dmg", symsDmgOp),
+   ("rans_oracle", ransOracleOp)]
 
 end Draco.Ops
